@@ -135,9 +135,12 @@ func scanScenarios(tier string) []scanScenario {
 			if n > 0 {
 				p.Pool = append(p.Pool, scanMut{false, els[0]}, scanMut{false, els[n/2]}, scanMut{false, "*"})
 			}
+			if n >= 15 {
+				p.Pool = append(p.Pool, scanMut{false, "*3"}, scanMut{false, "*8"})
+			}
 			if !thorough && n > 17 {
 				p.MaxMut = 1
-				p.Pool = []scanMut{{false, "*"}}
+				p.Pool = []scanMut{{false, "*"}, {false, "*3"}, {false, "*8"}}
 			}
 			out = append(out, p)
 			if n >= 5 && n <= 17 {
@@ -352,6 +355,28 @@ func runScanPlan(sc *scanScenario, pl scanPlan) (res scanResult) {
 			// mutations scheduled after this call
 			for mi < len(pl.Muts) && pl.Muts[mi].At == calls {
 				m := pl.Muts[mi].Mut
+				if len(m.Name) > 1 && m.Name[0] == '*' {
+					// remove all but the first k elements (in name order): the collection falls below any
+					// small-collection threshold while an iteration is open
+					keep := 0
+					fmt.Sscanf(m.Name[1:], "%d", &keep)
+					var all []string
+					for n := range present {
+						all = append(all, n)
+					}
+					sort.Strings(all)
+					if len(all) <= keep {
+						res = scanResult{Status: "skip"}
+						done = true
+						return
+					}
+					for _, n := range all[keep:] {
+						rem(n)
+					}
+					lastMutCall = calls
+					mi++
+					continue
+				}
 				if m.Name == "*" {
 					// remove everything: the collection is empty (hash / set: the key is gone) while an
 					// iteration is open
